@@ -159,7 +159,7 @@ Lemma cstep_linear cc R v :
 Proof.
   destruct cc as [[c1 c2] c3]. destruct c1 as [c11 c12 c13], c2 as [c21 c22 c23], c3 as [c31 c32 c33].
   destruct R as [r11 r12 r13 r21 r22 r23 r31 r32 r33]. destruct v as [v1 v2 v3].
-  unfold cmul, q3eq, q3add, q3sub, q3scale, mq, e1, e2, e3, iz; cbn [qx qy qz m11 m12 m13 m21 m22 m23 m31 m32 m33].
+  cbv beta iota delta [cmul q3eq q3add q3sub q3scale mq e1 e2 e3 iz qx qy qz m11 m12 m13 m21 m22 m23 m31 m32 m33].
   repeat split; ring.
 Qed.
 
@@ -317,11 +317,12 @@ Lemma pos_orbit G c : pos_cert_ok G c = true ->
 Proof.
   intros Hok g Hg. apply pos_ok_clauses in Hok. cbv zeta in Hok.
   destruct Hok as (_ & _ & _ & _ & _ & _ & _ & _ & H9 & _).
-  unfold orbit_covered in H9. rewrite forallb_forall in H9. specialize (H9 g Hg).
-  apply existsb_exists in H9 as [f [Hf Hc]]. unfold covered_by in Hc.
-  destruct (nth_error G (pf_rep f)) as [gi|] eqn:E; [|discriminate].
+  unfold orbit_covered in H9. cbv zeta in H9. rewrite forallb_forall in H9. specialize (H9 g Hg).
+  apply existsb_exists in H9 as [o [Ho Hc]]. apply in_map_iff in Ho as [f [Hfo Hf]].
+  unfold rep_can in Hfo. destruct (nth_error G (pf_rep f)) as [gi|] eqn:E; [|subst o; discriminate].
+  subst o. unfold covered_by in Hc.
   apply andb_true_iff in Hc as [Hs Hr]. exists f, gi. split; [exact Hf|]. split; [exact E|].
-  split; [apply is_int3_IsInt3; exact Hs|].
+  split; [apply q3canon_cong, q3same_eq; exact Hs|].
   intros p. unfold moved. apply img_diff.
   unfold rows_agree in Hr. rewrite forallb_forall in Hr.
   assert (HA : forall n, In n (pc_N c) -> q3eq (mq (fst g) n) (mq (fst gi) n)).
@@ -331,18 +332,27 @@ Proof.
 Qed.
 
 (* different listed positions are different points of the orbit of x *)
+Lemma distinct_can_spec l : distinct_can l = true ->
+  forall i j a b, (i < j)%nat -> nth_error l i = Some a -> nth_error l j = Some b -> a <> b.
+Proof.
+  induction l as [|h r IH]; intros H i j a b Hij Hi Hj.
+  - destruct i; discriminate.
+  - cbn [distinct_can] in H. apply andb_true_iff in H as [Hf Hr].
+    destruct j as [|j]; [lia|]. cbn [nth_error] in Hj. destruct i as [|i].
+    + cbn [nth_error] in Hi. injection Hi as <-. rewrite forallb_forall in Hf.
+      apply nth_error_In in Hj. specialize (Hf b Hj). intros ->. rewrite q3same_refl in Hf. discriminate.
+    + cbn [nth_error] in Hi. apply (IH Hr i j a b); [lia|assumption|assumption].
+Qed.
+
 Lemma images_distinct_spec G x fs : images_distinct G x fs = true ->
   forall i j fi fj, (i < j)%nat -> nth_error fs i = Some fi -> nth_error fs j = Some fj ->
     ~ IsInt3 (q3sub (rep_img G x fi) (rep_img G x fj)).
 Proof.
-  induction fs as [|f r IH]; intros H i j fi fj Hij Hi Hj.
-  - destruct i; discriminate.
-  - cbn [images_distinct] in H. apply andb_true_iff in H as [Hf Hr].
-    destruct j as [|j]; [lia|]. cbn [nth_error] in Hj. destruct i as [|i].
-    + cbn [nth_error] in Hi. injection Hi as <-. rewrite forallb_forall in Hf.
-      apply nth_error_In in Hj. specialize (Hf fj Hj). intros HI. apply IsInt3_is_int3 in HI.
-      unfold same_mod1 in Hf. rewrite HI in Hf. discriminate.
-    + cbn [nth_error] in Hi. apply (IH Hr i j fi fj); [lia|assumption|assumption].
+  unfold images_distinct. intros H i j fi fj Hij Hi Hj HI.
+  apply (distinct_can_spec _ H i j (q3canon (rep_img G x fi)) (q3canon (rep_img G x fj)) Hij).
+  - exact (map_nth_error (fun f => q3canon (rep_img G x f)) i fs Hi).
+  - exact (map_nth_error (fun f => q3canon (rep_img G x f)) j fs Hj).
+  - apply cong_q3canon. exact HI.
 Qed.
 
 Lemma pos_distinct G c : pos_cert_ok G c = true ->
